@@ -112,6 +112,14 @@ video_sink_start(struct video_sink_s* self)
            device_state_as_string(storage_get_state(self->storage)));
 
     channel_accept_writes(&self->in, 1);
+    // Register this reader before anything can be written. A channel without
+    // readers lets the writer run (and wrap) freely, so frames written before
+    // the sink thread's first read would be lost.
+    {
+        struct slice slice = channel_read_map(&self->in, &self->reader);
+        (void)slice;
+        channel_read_unmap(&self->in, &self->reader, 0);
+    }
     self->is_stopping = 0;
     self->is_running = 1;
     CHECK(
